@@ -94,12 +94,15 @@ class Ctx:
         self.t0 = time.time()
         self.case = None
         self._sample_every = 1
+        self._fallback_sample = None
 
     # -- per case -----------------------------------------------------------
     def begin(self, case, nontrivial=True, sample=None):
         """Register one executed case. `nontrivial` per the module's RULE."""
         self.case = case
         self.evaluations += 1
+        if self._fallback_sample is None:
+            self._fallback_sample = clip(sample if sample is not None else case)
         if nontrivial:
             self.digests.add(digest64(case))
         if len(self.samples) < MAX_SAMPLES and nontrivial:
@@ -172,7 +175,7 @@ class Ctx:
             "skipped": dict(self.skipped),
             "monitors": dict(self.monitors),
             "evaluations": self.evaluations,
-            "samples": self.samples,
+            "samples": self.samples or ([self._fallback_sample] if self._fallback_sample is not None else []),
             "violations": self.violations,
             "notes": self.notes,
             "exhaustive": self.exhaustive,
